@@ -216,3 +216,7 @@ func Harness_C07_write() {
 	_ = c.Close()
 	v.Assert("C07/close/closes-underlying", vCloses == 1)
 }
+
+// VerifCloses: how many times the underlying gorilla connection was closed.
+func VerifCloses() int { return vCloses }
+func VerifResetCloses() { vCloses = 0 }
